@@ -136,6 +136,10 @@ def run(ctx):
     histcheck.run(ctx, MODULE, WEIGHTS, TAGS, lean_extra=EXTRA,
                   release_quick_filter=lambda h: any(op.split()[0] in ('writeSlot',) for op in h))
     class_sweep(ctx)
+    # the deprecated write against a reader that has just released its handle: the uniqueness check inside the call is
+    # the only synchronisation (dev and release profile: a debug assertion re-loads the count with Acquire)
+    from vlib import miri
+    miri.simple_pass(ctx, "C15", ["deprecated_write_vs_reader", "deprecated_write_vs_reader@release"], 2 if not ctx.thorough() else 16, "deprecated-write-vs-reader")
     # the length is the caller's: impossible lengths (byte size overflowing / beyond isize::MAX) must be refused
     from vlib import layout_corr
     ok, stats, failures = layout_corr.uninit_ovf_pass(ctx)
@@ -151,4 +155,7 @@ def run(ctx):
 
 
 def replay(ctx, path):
+    if "kind: miri" in open(path).read():
+        from vlib import miri
+        return miri.replay(ctx, path)
     histcheck.replay(ctx, path, TAGS)
